@@ -49,18 +49,23 @@ def carrier_lists(deep=False):
             chans.append((edge + s / 2, b, s))
             edge += s
         out.append(('touching' + ''.join(map(str, types)), chans, True))
-    # overlap by one 12.5 GHz step between channel k and k+1
+    # overlap by one 12.5 GHz step between channel k and k+1; and by much less than a grid step (1 GHz, 1 MHz): any overlap
+    # is an overlap. A gap of the same size is valid.
     for types in itertools.product(range(3), repeat=3):
         for k in (0, 1):
-            f, edge = [], base
-            chans = []
-            for i, t in enumerate(types):
-                b, s = TYPES[t]
-                if i == k + 1:
-                    edge -= 12.5e9
-                chans.append((edge + s / 2, b, s))
-                edge += s
-            out.append((f'overlap{k}' + ''.join(map(str, types)), chans, False))
+            for step, valid in ((12.5e9, False), (1e9, False), (1e6, False), (-1e6, True)):
+                if step != 12.5e9 and types not in ((0, 0, 0), (0, 1, 2), (2, 1, 0)):
+                    continue
+                f, edge = [], base
+                chans = []
+                for i, t in enumerate(types):
+                    b, s = TYPES[t]
+                    if i == k + 1:
+                        edge -= step
+                    chans.append((edge + s / 2, b, s))
+                    edge += s
+                name = f'overlap{k}' if step == 12.5e9 else f'{"overlap" if not valid else "gap"}{k}_{abs(step):g}Hz_'
+                out.append((name + ''.join(map(str, types)), chans, valid))
     # baud rate wider than the slot on one channel (others fine and of a different type)
     for k in range(3):
         for wide in ((64e9, 50e9), (32.5e9, 25e9), (75.1e9, 75e9)):
